@@ -91,3 +91,6 @@ from vlib.props.pgen import replay_model  # noqa: E402,F401
 BOUNDS = ["<= 2 input scaffolds of <= 5 rows, <= 3 pieces; all numbers unbounded symbolic"]
 OUTSIDE = ["larger shapes", "input scaffolds with two consecutive gap rows or terminal gaps", "gap provenance (third clause) is asserted for model maps only, as the statement says"]
 TRUSTED = ["CrossHair/z3", "integer abstraction of the PretextView model", "Fragment.key_tuple stub", "loader cuts"]
+
+TECHNIQUE = ("symbolic execution of the real remapping pipeline (CrossHair + z3); gap/adjacency oracle over contig ends (name, coordinate, side) as one z3 formula per path")
+LEVEL_TEXT = ("Decides every geometry of each template, including trailing contigs inside the final partial texel and pieces that lose all their rows.")
